@@ -143,7 +143,7 @@ def gen_case(r, script, fail_scripts, logdir, ai=False):
             b.attr_map = {}
             for k, v in attrs:
                 b.attr_map[k] = "" if v is None else v
-            nl = r.choice([0, 1, 1, 2, 3, 6])
+            nl = r.choice([0, 1, 1, 2, 3, 6]) if r.random() > 0.03 else 3000      # now and then ~60 KB of content
             # code hosts get pieces without quotes/brackets (an unterminated string or bracket may swallow the
             # end-tag comment, which is the host language's business); Markdown gets everything
             pool = PIECES if ext == "md" else [p for p in PIECES if not (set(p) & UNSAFE_IN_CODE)]
